@@ -142,19 +142,15 @@ class ReactionSummary(Summary):
         """
 
         if "minimum" in self._flux.columns and "maximum" in self._flux.columns:
-            frame = self._flux.loc[
-                (self._flux["flux"].abs() >= threshold)
-                | (self._flux["minimum"].abs() >= threshold)
-                | (self._flux["maximum"].abs() >= threshold),
-                :,
-            ].copy()
+            # values below the threshold are shown as zero
+            frame = self._flux.where(self._flux.abs() >= threshold, 0.0)
             return (
                 f"{frame.at[self._reaction.id, 'flux']:{float_format}} "
                 f"[{frame.at[self._reaction.id, 'minimum']:{float_format}}; "
                 f"{frame.at[self._reaction.id, 'maximum']:{float_format}}]"
             )
         else:
-            frame = self._flux.loc[self._flux["flux"].abs() >= threshold, :].copy()
+            frame = self._flux.where(self._flux.abs() >= threshold, 0.0)
             return f"{frame.at[self._reaction.id, 'flux']:{float_format}}"
 
     def to_string(
